@@ -575,6 +575,13 @@ func ruleSenderResolution(c *Ctx) {
 		return
 	}
 	info := pk.TypesInfo
+	// the decoding and resolution may have been extracted into a method of the worker that returns
+	// (receiver, error): the definitions are then read there
+	proc := fd
+	extracted := false
+	if rfd := senderResolveFunc(c.P); rfd != nil && rfd != fd {
+		fd, extracted = rfd, true
+	}
 	env := newProvEnv(pk, fd)
 	// recv's definitions, in order: targets[*logical]; schemeToRecv(*logical) when nil; physical
 	var recvObj types.Object
@@ -672,6 +679,62 @@ func ruleSenderResolution(c *Ctx) {
 	}
 	// unknown receiver / unknown plugin ⇒ error completion (exits)
 	nilRecv, nilPlugin := false, false
+	if extracted {
+		// in the extracted method an unresolved receiver is an error return; in Process that error
+		// completes the hand-off
+		helperFails, errCompletes := false, false
+		ast.Inspect(fd.Body, func(n ast.Node) bool {
+			ifs, ok := n.(*ast.IfStmt)
+			if !ok || exprString(ifs.Cond) != "recv == nil" || len(ifs.Body.List) == 0 {
+				return true
+			}
+			if rs, ok := ifs.Body.List[len(ifs.Body.List)-1].(*ast.ReturnStmt); ok && len(rs.Results) == 2 && exprString(rs.Results[0]) == "nil" && exprString(rs.Results[1]) != "nil" {
+				helperFails = true
+			}
+			return true
+		})
+		var errObj types.Object
+		ast.Inspect(proc.Body, func(n ast.Node) bool {
+			if as, ok := n.(*ast.AssignStmt); ok && len(as.Lhs) == 2 && len(as.Rhs) == 1 {
+				if call, ok := ast.Unparen(as.Rhs[0]).(*ast.CallExpr); ok && calleeOf(info, call) == info.Defs[fd.Name] {
+					if id, ok := as.Lhs[1].(*ast.Ident); ok {
+						errObj = info.Defs[id]
+						if errObj == nil {
+							errObj = info.Uses[id]
+						}
+					}
+				}
+			}
+			return true
+		})
+		ast.Inspect(proc.Body, func(n ast.Node) bool {
+			ifs, ok := n.(*ast.IfStmt)
+			if !ok || !exits(ifs.Body) || errObj == nil {
+				return true
+			}
+			if obj, nonNil, ok := nilTest(info, ifs.Cond); !ok || !nonNil || obj != errObj {
+				return true
+			}
+			enq, setsErr := false, false
+			for _, call := range callsIn(ifs.Body) {
+				if methodCallNamed(info, call, "EnqueueCQE") != nil {
+					enq = true
+				}
+			}
+			ast.Inspect(ifs.Body, func(x ast.Node) bool {
+				if as, ok := x.(*ast.AssignStmt); ok && strings.HasSuffix(exprString(as.Lhs[0]), ".Error") {
+					setsErr = true
+				}
+				return true
+			})
+			if enq && setsErr {
+				errCompletes = true
+			}
+			return true
+		})
+		nilRecv = helperFails && errCompletes
+	}
+	fd = proc
 	ast.Inspect(fd.Body, func(n ast.Node) bool {
 		ifs, ok := n.(*ast.IfStmt)
 		if !ok || !exits(ifs.Body) {
@@ -1776,4 +1839,154 @@ func ruleSchemeURLVerbatim(c *Ctx) {
 		return true
 	})
 	c.check(n >= 1 && ok, key, at, "the http receiver's url is the parsed tag's own String()", "schemeToRecv hands the http transport "+what+" instead of the URL the routing tag gave (the String() of url.Parse's own result): parts of the address (query, user info, fragment) are dropped and the message is posted elsewhere")
+}
+
+// rulePollHandlerDisconnects (C18): the HTTP side of a long-poll connection. Once the handler's
+// connection was registered with the worker (the connect hand-off succeeded), every way out of the
+// handler either tells the worker (the disconnect hand-off) or was caused by the worker itself
+// (the connection's channel was closed, which the worker does only after removing it). Otherwise
+// a dead listener stays registered: it keeps receiving (and "accepting") messages until its buffer
+// fills, and it occupies a connection slot. Must-facts over the handler's CFG.
+func rulePollHandlerDisconnects(c *Ctx) {
+	pk := c.P.Pkg(pkgPoll)
+	if pk == nil {
+		c.und("poll/handler-disconnects", 0, "poll package not loaded")
+		return
+	}
+	info := pk.TypesInfo
+	// the hand-off methods: those that send their parameter on the connect / disconnect channel
+	sender := map[types.Object]string{}
+	for _, fd := range allFuncDecls(pk) {
+		if fd.Body == nil || fd.Recv == nil || isTestFile(c.P, fd.Pos()) {
+			continue
+		}
+		ast.Inspect(fd.Body, func(nd ast.Node) bool {
+			ss, ok := nd.(*ast.SendStmt)
+			if !ok {
+				return true
+			}
+			if se, ok := ast.Unparen(ss.Chan).(*ast.SelectorExpr); ok && (se.Sel.Name == "connect" || se.Sel.Name == "disconnect") {
+				if id, ok := ast.Unparen(ss.Value).(*ast.Ident); ok {
+					if v, ok := info.Uses[id].(*types.Var); ok && isNamed(v.Type(), pkgPoll, "connection") {
+						sender[info.Defs[fd.Name]] = se.Sel.Name
+					}
+				}
+			}
+			return true
+		})
+	}
+	callRole := func(nd ast.Node) (string, *ast.CallExpr) {
+		for _, call := range callsIn(nd) {
+			if r, ok := sender[calleeOf(info, call)]; ok {
+				return r, call
+			}
+		}
+		return "", nil
+	}
+	n := 0
+	for _, fd := range allFuncDecls(pk) {
+		if fd.Body == nil || isTestFile(c.P, fd.Pos()) || sender[info.Defs[fd.Name]] != "" {
+			continue
+		}
+		connects := false
+		for _, call := range callsIn(fd.Body) {
+			if sender[calleeOf(info, call)] == "connect" {
+				connects = true
+			}
+		}
+		if !connects {
+			continue
+		}
+		n++
+		key := "poll/handler-disconnects/" + funcName(fd)
+		// ok variables of `v, ok := <-conn.ch`
+		closedVar := map[types.Object]bool{}
+		ast.Inspect(fd.Body, func(nd ast.Node) bool {
+			as, ok := nd.(*ast.AssignStmt)
+			if !ok || len(as.Lhs) != 2 || len(as.Rhs) != 1 {
+				return true
+			}
+			if u, ok := ast.Unparen(as.Rhs[0]).(*ast.UnaryExpr); ok && u.Op == token.ARROW {
+				if tv, ok := info.Types[u.X]; ok {
+					if ch, ok := tv.Type.Underlying().(*types.Chan); ok {
+						if sl, ok := ch.Elem().Underlying().(*types.Slice); ok {
+							_ = sl
+							if id, ok := as.Lhs[1].(*ast.Ident); ok && info.Defs[id] != nil {
+								closedVar[info.Defs[id]] = true
+							}
+						}
+					}
+				}
+			}
+			return true
+		})
+		g := buildCFG(pk, fd.Body)
+		gen := func(nd ast.Node) []string {
+			if _, isLit := nd.(*ast.FuncLit); isLit {
+				return nil
+			}
+			if r, _ := callRole(nd); r == "disconnect" {
+				return []string{"disconnected"}
+			}
+			return nil
+		}
+		edge := func(b *cfg.Block, i int) []string {
+			if len(b.Succs) != 2 || len(b.Nodes) == 0 {
+				return nil
+			}
+			cond, ok := b.Nodes[len(b.Nodes)-1].(ast.Expr)
+			if !ok {
+				return nil
+			}
+			cond = ast.Unparen(cond)
+			neg := false
+			if u, ok := cond.(*ast.UnaryExpr); ok && u.Op == token.NOT {
+				neg = true
+				cond = ast.Unparen(u.X)
+			}
+			truth := (i == 0) != neg // the value of the un-negated operand on this edge
+			if call, ok := cond.(*ast.CallExpr); ok && sender[calleeOf(info, call)] == "connect" {
+				if truth {
+					return []string{"connected"}
+				}
+				return []string{"refused"}
+			}
+			if id, ok := cond.(*ast.Ident); ok && closedVar[info.Uses[id]] && !truth {
+				return []string{"closed-by-worker"}
+			}
+			return nil
+		}
+		bad := token.NoPos
+		nExit := 0
+		for _, ex := range mustFactsAtExits(g, gen, edge) {
+			if es, ok := ex.Last.(*ast.ExprStmt); ok {
+				if c2, ok := es.X.(*ast.CallExpr); ok && exprString(c2.Fun) == "panic" {
+					continue
+				}
+			}
+			if !ex.Facts["connected"] {
+				continue
+			}
+			nExit++
+			if !ex.Facts["disconnected"] && !ex.Facts["closed-by-worker"] {
+				p := fd.Body.Rbrace
+				if ex.Last != nil {
+					p = ex.Last.Pos()
+				}
+				if bad == token.NoPos || p < bad {
+					bad = p
+				}
+			}
+		}
+		switch {
+		case bad != token.NoPos:
+			c.bad(key, bad, funcName(fd)+" can return here after its connection was registered without telling the worker (no disconnect hand-off, and not because the worker closed the connection): the dead listener stays registered, keeps being handed messages and occupies a connection slot")
+		case nExit == 0:
+			c.und(key, fd.Pos(), "no exit after a successful connect was found")
+		default:
+			c.ok(key, fd.Pos(), fmt.Sprintf("each of %d exits after a successful connect follows a disconnect hand-off or the worker's close", nExit))
+		}
+	}
+	c.count("poll_handlers", n)
+	c.floor("poll handlers that register a connection", n, 1)
 }
